@@ -83,11 +83,19 @@ def build_iface(d, register=False):
     return I.DBusInterface(d['name'], *members, noRegister=True)
 
 
-def make_object(ifaces):
+def make_object(ifaces, falsy=False):
     from txdbus import objects as O
 
     class Obj(O.DBusObject):
         dbusInterfaces = list(ifaces)
+
+    if falsy:
+        # a container-like application object, empty at the moment: its
+        # truth value is False
+        class Empty(Obj):
+            def __len__(self):
+                return 0
+        return Empty('/o')
     return Obj('/o')
 
 
@@ -160,7 +168,8 @@ def check_object(res, defs, known=(), replace=True, failed_first=False):
             for k in known:
                 registered[defs[k]['name']] = build_iface(defs[k],
                                                           register=True)
-            obj = make_object(ifaces)
+            obj = make_object(ifaces, falsy=sum(
+                len(d['name']) + len(d['methods']) for d in defs) % 3 == 0)
             xml = X.generateIntrospectionXML('/o', {'/o': obj})
         except Exception as e:
             res.violation('%s/generate-raises-%s' % (PROP, type(e).__name__),
@@ -620,7 +629,8 @@ def _task_many_known(task):
 def run(ctx):
     pool = sig_pool(ctx.quick)
     ctx.rule = (
-        'interface definitions: every (in, out) pair of a pool of %d '
+        '(every third definition is introspected on a container-like object '
+        'whose truth value is False) interface definitions: every (in, out) pair of a pool of %d '
         'signature sequences (empty, every basic type, containers, nested '
         'dict entries, several arguments) as a method; every pool entry as a '
         'signal, alone and next to a same-named method; every single type x '
